@@ -45,6 +45,9 @@ fn roundtrip(id: &str, m: &CMap2<f64>, binary: bool, outdir: &str, out: &mut Out
     dump2(m, 0, &mut pre);
     writeln!(out.obs, "{id} 0 0 0 0{pre}").unwrap();
     let path = format!("{outdir}/tmp_{id}.vtk");
+    if std::env::var("HC_LOUD").is_ok() {
+        eprintln!("## case {id}");
+    }
     let exported = catch_unwind(AssertUnwindSafe(|| {
         if binary {
             let mut buf: Vec<u8> = Vec::new();
